@@ -407,10 +407,30 @@ theorem complete_met (c : Cfg) (b : Brk) (now code : Nat) (orc : Oracle) :
   · refine ⟨b.met.record now code, MEq.refl _ _, ?_⟩
     simp [h1]
 
+/-- the metrics after a check: the metrics up to clean-ups, reset if it tripped -/
+theorem check_met (c : Cfg) (b : Brk) (now : Nat) (orc : Oracle) :
+    ∃ m', MEq now b.met m' ∧
+      (checkAndSet c b now orc).1.met = if (checkAndSet c b now orc).2 = true then m'.reset else m' := by
+  unfold checkAndSet
+  by_cases h1 : now > b.lastCheck
+  · by_cases h2 : b.state = .tripped
+    · refine ⟨b.met, MEq.refl _ _, ?_⟩
+      simp [h1, h2]
+    · refine ⟨(eval (reader now orc) c.cond b.met).1, eval_meq orc _ _ (MEq.refl _ _), ?_⟩
+      cases h3 : (eval (reader now orc) c.cond b.met).2 <;> simp [h1, h2, h3]
+  · refine ⟨b.met, MEq.refl _ _, ?_⟩
+    simp [h1]
+
+theorem record_met (b : Brk) (now code : Nat) : (record b now code).met = b.met.record now code := by
+  unfold record; exact rfl
+
 /-- the responses recorded since the last trip (newest first) after a trace, given those before it -/
 def recsAfter (c : Cfg) : Brk → List (Nat × Nat) → List Ev → List (Nat × Nat)
   | _, recs, [] => recs
   | b, recs, .arrive t :: es => recsAfter c (step c b (.arrive t)).1 recs es
+  | b, recs, .record t code :: es => recsAfter c (step c b (.record t code)).1 ((t, code) :: recs) es
+  | b, recs, .check t orc :: es =>
+    recsAfter c (step c b (.check t orc)).1 (if (checkAndSet c b t orc).2 = true then [] else recs) es
   | b, recs, .complete t code orc :: es =>
     recsAfter c (step c b (.complete t code orc)).1
       (if (complete c b t code orc).2 = true then [] else (t, code) :: recs) es
@@ -438,6 +458,25 @@ theorem run_minv (c : Cfg) : ∀ (es : List Ev) (b : Brk) (T : Nat) (recs : List
         rw [arrive_met]
         exact minv_meq h hTe (MEq.refl _ _)
       obtain ⟨T', a1, a3⟩ := ih _ t recs hm hs' (fun e he => hmin e (List.mem_cons_of_mem _ he))
+      exact ⟨T', List.mem_cons_of_mem _ (by simpa [Ev.time] using a1), by simpa [recsAfter] using a3⟩
+    | record t code =>
+      have hm : MInv (step c b (.record t code)).1.met t ((t, code) :: recs) := by
+        show MInv (record b t code).met t _
+        rw [record_met]
+        exact minv_record h hTe hmin_e code
+      obtain ⟨T', a1, a3⟩ := ih _ t _ hm hs' (fun e he => hmin e (List.mem_cons_of_mem _ he))
+      exact ⟨T', List.mem_cons_of_mem _ (by simpa [Ev.time] using a1), by simpa [recsAfter] using a3⟩
+    | check t orc =>
+      obtain ⟨m', e1, e2⟩ := check_met c b t orc
+      have hm' := minv_meq h hTe e1
+      have hm : MInv (step c b (.check t orc)).1.met t
+          (if (checkAndSet c b t orc).2 = true then [] else recs) := by
+        show MInv (checkAndSet c b t orc).1.met t _
+        rw [e2]
+        by_cases hf : (checkAndSet c b t orc).2 = true
+        · rw [if_pos hf, if_pos hf]; exact minv_reset hm' t
+        · rw [if_neg hf, if_neg hf]; exact hm'
+      obtain ⟨T', a1, a3⟩ := ih _ t _ hm hs' (fun e he => hmin e (List.mem_cons_of_mem _ he))
       exact ⟨T', List.mem_cons_of_mem _ (by simpa [Ev.time] using a1), by simpa [recsAfter] using a3⟩
     | complete t code orc =>
       obtain ⟨m', e1, e2⟩ := complete_met c b t code orc
